@@ -26,6 +26,7 @@ type Parser struct {
 	currentToken *Token // Current token being processed
 	peekToken    *Token // Next token (lookahead)
 	resolver     ReferenceResolver
+	err          error // first lexical error; once set, only EOF tokens follow
 }
 
 // SetReferenceResolver sets the reference resolver for the parser.
@@ -60,8 +61,19 @@ func (p *Parser) nextToken() error {
 		return nil
 	}
 
+	if p.err != nil {
+		p.peekToken = &Token{Type: TokenEOF}
+		return p.err
+	}
+
 	token, err := p.lexer.NextToken()
 	if err != nil {
+		// Most callers advance without looking at the result. Leaving the old
+		// lookahead in place made them see the same token again and again
+		// ("[ 1 ) ]" never returned and nested without bound); after a lexical
+		// error the input ends here and the error is reported by ParseObject.
+		p.err = err
+		p.peekToken = &Token{Type: TokenEOF}
 		return err
 	}
 	p.peekToken = token
@@ -88,11 +100,17 @@ func (p *Parser) ParseObject() (Object, error) {
 	}
 
 	if p.currentToken == nil {
+		if p.err != nil {
+			return nil, p.err
+		}
 		return nil, fmt.Errorf("unexpected end of input")
 	}
 
 	switch p.currentToken.Type {
 	case TokenEOF:
+		if p.err != nil {
+			return nil, p.err
+		}
 		return nil, io.EOF
 
 	case TokenKeyword:
@@ -295,6 +313,13 @@ func (p *Parser) ParseIndirectObject() (*IndirectObject, error) {
 	// Skip comments
 	if err := p.skipComments(); err != nil {
 		return nil, err
+	}
+
+	if p.currentToken == nil {
+		if p.err != nil {
+			return nil, p.err
+		}
+		return nil, fmt.Errorf("unexpected end of input")
 	}
 
 	// Parse object number
